@@ -303,28 +303,42 @@ def check(run):
         from ..names import return_names
         rn = return_names(f)
         PR = rn[-1] if rn and rn[-1] else 'prob'
-        from ..names import update_of
-        halves = [s for s in k.block if (isinstance(s, ast.Assign) and norm(s.targets[0]) == PR) or (isinstance(s, ast.AugAssign) and norm(s.target) == PR)]
-        ok = len(halves) == 1
-        if ok:
-            try:
-                h = halves[0]
-                if isinstance(h, ast.AugAssign):
-                    expr = ast.BinOp(left=ast.Name(id=PR, ctx=ast.Load()), op=h.op, right=h.value)
-                else:
-                    expr = h.value
-                ok = all(abs(ev(expr, {PR: v}) - v / 2) < 1e-12 for v in (1.0, 0.5))
-            except Undecidable:
-                ok = False
-        run.check(ok, 'R11.prob', f, halves[0] if halves else PR, 'an undetermined outcome has probability 1/2')
+        # the value of the returned probability is computed by the checker on each branch: 1/2 where the outcome is
+        # undetermined; on the determined branch the initial 1 stays when the accumulated sign equals the requested one and
+        # becomes 0 otherwise (whatever the statements look like: prob = prob/2, prob /= 2., prob = 0.5, a conditional expression)
         owner = [st for st, _ in walk(f.node) if isinstance(st, ast.If) and st.body is k.block]
+        init = [st.value for st, c2 in walk(f.node) if isinstance(st, ast.Assign) and norm(st.targets[0]) == PR and not c2.conds
+                and isinstance(st.value, ast.Constant) and (not owner or st.lineno < owner[0].lineno)]
+        v0 = init[-1].value if init else None
+
+        def final_value(stmts, env):
+            for s2 in stmts:
+                if isinstance(s2, ast.Assign) and norm(s2.targets[0]) == PR:
+                    env[PR] = ev(s2.value, env)
+                elif isinstance(s2, ast.AugAssign) and norm(s2.target) == PR:
+                    env[PR] = ev(ast.BinOp(left=ast.Name(id=PR, ctx=ast.Load()), op=s2.op, right=s2.value), env)
+                elif isinstance(s2, ast.If) and PR in {n.id for n in ast.walk(s2) if isinstance(n, ast.Name)}:
+                    final_value(s2.body if ev(s2.test, env) else s2.orelse, env)
+            return env.get(PR)
+        try:
+            half = final_value(k.block, {PR: v0})
+            run.check(half is not None and abs(half - 0.5) < 1e-12, 'R11.prob', f, PR, 'an undetermined outcome has probability 1/2 (found %s)' % half)
+        except (Undecidable, TypeError) as e:
+            run.undecided('R11.prob', f, PR, 'probability of the undetermined branch not evaluable: %s' % e)
         if owner:
             writes = [norm(n) for s in owner[0].orelse for n in ast.walk(s) if isinstance(n, ast.Assign)
                       and isinstance(n.targets[0], ast.Subscript)]
             run.check(not writes, 'R11.prob', f, owner[0].test, 'a determined outcome must leave the state unchanged: %s' % writes)
-            zero = [n for s in owner[0].orelse for n in ast.walk(s) if isinstance(n, ast.Assign) and norm(n.targets[0]) == PR]
-            run.check(len(zero) == 1 and isinstance(zero[0].value, ast.Constant) and zero[0].value.value == 0, 'R11.prob', f, owner[0].test,
-                      'the impossible outcome has probability 0')
+            names = sorted({n.id for s2 in owner[0].orelse for t in ast.walk(s2) if isinstance(t, (ast.If, ast.IfExp))
+                            for n in ast.walk(t.test) if isinstance(n, ast.Name)} - {PR})
+            try:
+                same = final_value(owner[0].orelse, dict({n: 0 for n in names}, **{PR: v0}))
+                diff = final_value(owner[0].orelse, dict({n: 2 * i for i, n in enumerate(names)}, **{PR: v0}))
+                run.check(len(names) == 2 and same == 1 and diff == 0, 'R11.prob', f, owner[0].test,
+                          'a determined outcome has probability 1 when the accumulated sign equals the requested one and 0 otherwise '
+                          '(found %s and %s)' % (same, diff))
+            except (Undecidable, TypeError) as e:
+                run.undecided('R11.prob', f, owner[0].test, 'probability of the determined branch not evaluable: %s' % e)
     entries = [ml.methods['forward'], ml.methods['backward'], circ.methods['forward'], circ.methods['backward'], circ.methods['take'],
                circ.methods['measure'], ps]
     resolve.check_cone(run, repo, entries, 'trajectory')
